@@ -44,7 +44,10 @@ pub const WORK_BUDGET: u64 = 50_000;
 /// wall-clock limit of one solver call (last resort: the work budget is the reported reason
 /// whenever the solver keeps ticking; a call that stops ticking is aborted and reported by the
 /// parent process as the case in flight)
-pub const CALL_SECONDS: u64 = 30;
+pub const CALL_SECONDS: u64 = 90;
+/// the SLG engine's steps (iterations of ensure_root_answer) are much heavier than the recursive
+/// solver's: clean solves of the generated subjects need < 2000 of them
+pub const SLG_WORK_BUDGET: u64 = 10_000;
 pub const ROUNDS: usize = 64;
 
 // ------------------------------------------------------------------------------------------------
@@ -1032,7 +1035,7 @@ pub fn start_watchdog() {
 /// installs (Some) / removes (None) the work budget of both engines and the call deadline
 pub fn set_budgets(b: Option<u64>) {
     chalk_recursive::verif::reset_work(b);
-    chalk_engine::verif_work::reset(b);
+    chalk_engine::verif_work::reset(b.map(|x| x.min(SLG_WORK_BUDGET)));
     DEADLINE_MS.store(if b.is_some() { now_ms() + CALL_SECONDS * 1000 } else { 0 }, std::sync::atomic::Ordering::Relaxed);
 }
 
@@ -1132,9 +1135,28 @@ fn has_unknowns(g: &str) -> bool {
     g.contains("exists")
 }
 
+/// both answers are "some solution may exist" and at least one of them is ambiguous: the two
+/// differ in precision only (neither contradicts the other)
+fn precision_only(a: &Answer, b: &Answer) -> bool {
+    match (a, b) {
+        (Ok(Some(x)), Ok(Some(y))) => x.is_ambig() || y.is_ambig(),
+        _ => false,
+    }
+}
+
+fn is_mixed(s: &Subject) -> bool {
+    s.text.contains("#[coinductive]") && (s.text.contains("impl Tind") || !s.text.contains("trait Tind"))
+}
+
 /// classifier of a history dependence that needs no interruption and no panic (a C10 defect)
-fn history_classifier(name: &str, s: &Subject) -> &'static str {
-    let mixed = s.text.contains("#[coinductive]") && (s.text.contains("impl Tind") || !s.text.contains("trait Tind"));
+fn history_classifier(name: &str, s: &Subject, got: &Answer, fresh: &Answer) -> &'static str {
+    let mixed = is_mixed(s);
+    if is_budget_panic(got) {
+        return if name == "slg" { "slg_runaway_after_history" } else { "recursive_runaway_after_history" };
+    }
+    if name != "slg" && !mixed && precision_only(got, fresh) {
+        return "recursive_ambig_precision_depends_on_history";
+    }
     if name == "slg" {
         if s.coinductive || s.text.contains("#[auto]") {
             "slg_coinductive_cycle_table_reuse"
@@ -1238,12 +1260,28 @@ pub fn oracle_c10(ctx: &Ctx, out: &mut Out, s: &Subject, rng: &mut Rng) {
             for (pos, &gi) in seq.iter().enumerate() {
                 let a = solve_on(&mut *solver, db, &low.goals[gi].1);
                 out.evaluations_extra += 1;
-                if is_budget_panic(&a) || is_budget_panic(&fresh[gi]) {
+                if is_budget_panic(&fresh[gi]) {
                     out.count("c10_budget_skipped");
                     break;
                 }
+                if is_budget_panic(&a) {
+                    // returns on a fresh solver, runs away after this history
+                    out.fail(
+                        &format!(
+                            "{}: after solving {:?} the goal `{}` does not return within the work budget; a fresh solver answers {}",
+                            name,
+                            seq[..pos].iter().map(|j| low.goals[*j].0.clone()).collect::<Vec<_>>(),
+                            low.goals[gi].0,
+                            render(&fresh[gi])
+                        ),
+                        &format!("subject ;; {} ;; {}", s.text.replace('\n', " | "), seq[..=pos].iter().map(|j| low.goals[*j].0.clone()).collect::<Vec<_>>().join(" | ")),
+                        if name == "slg" { "slg_runaway_after_history" } else { "recursive_runaway_after_history" },
+                    );
+                    failed = true;
+                    break;
+                }
                 if a != fresh[gi] {
-                    let classifier = history_classifier(name, s);
+                    let classifier = history_classifier(name, s, &a, &fresh[gi]);
                     out.fail(
                         &format!(
                             "{}: after solving {:?} the goal `{}` is answered {} but a fresh solver answers {}",
@@ -1279,7 +1317,7 @@ pub fn oracle_c10(ctx: &Ctx, out: &mut Out, s: &Subject, rng: &mut Rng) {
                 out.fail(
                     &format!("recursive solver: `{}` is answered {} with the cache and {} without", low.goals[gi].0, render(a), render(b)),
                     &format!("subject ;; {} ;; {}", s.text.replace('\n', " | "), low.goals[gi].0),
-                    "recursive_cache_on_off_differ",
+                    if is_mixed(s) { "recursive_mixed_cycle_cached" } else if precision_only(a, b) { "recursive_ambig_precision_depends_on_history" } else { "recursive_cache_on_off_differ" },
                 );
             }
         }
@@ -1387,7 +1425,7 @@ pub fn oracle_c11(ctx: &Ctx, out: &mut Out, s: &Subject, rng: &mut Rng) {
                 let r3 = solve_on(&mut *solver, db, g);
                 out.evaluations_extra += 1;
                 if r3 != fresh[gi] {
-                    let c = if plain_history_differs(choice, db, &[g, g, g], &fresh[gi]) { history_classifier(name, s) } else if name == "slg" { "slg_answer_after_interrupt" } else { "recursive_cache_after_interrupt" };
+                    let c = if plain_history_differs(choice, db, &[g, g, g], &fresh[gi]) { history_classifier(name, s, &r3, &fresh[gi]) } else if name == "slg" { "slg_answer_after_interrupt" } else { "recursive_cache_after_interrupt" };
                     fail_once(out, &mut seen, &format!("{}: after an interrupted solve (callback false: {}) `{}` is answered {} but a fresh solver answers {}", name, sname, low.goals[gi].0, render(&r3), render(&fresh[gi])), &input("; then solve"), c);
                     continue;
                 }
@@ -1395,7 +1433,7 @@ pub fn oracle_c11(ctx: &Ctx, out: &mut Out, s: &Subject, rng: &mut Rng) {
                 let r4 = solve_on(&mut *solver, db, &low.goals[other].1);
                 out.evaluations_extra += 1;
                 if r4 != fresh[other] {
-                    let c = if plain_history_differs(choice, db, &[g, g, g, &low.goals[other].1], &fresh[other]) { history_classifier(name, s) } else if name == "slg" { "slg_answer_after_interrupt" } else { "recursive_cache_after_interrupt" };
+                    let c = if plain_history_differs(choice, db, &[g, g, g, &low.goals[other].1], &fresh[other]) { history_classifier(name, s, &r4, &fresh[other]) } else if name == "slg" { "slg_answer_after_interrupt" } else { "recursive_cache_after_interrupt" };
                     fail_once(out, &mut seen, &format!("{}: after an interrupted solve of `{}` (callback false: {}) the goal `{}` is answered {} but a fresh solver answers {}", name, low.goals[gi].0, sname, low.goals[other].0, render(&r4), render(&fresh[other])), &input(&format!("; then solve {}", low.goals[other].0)), c);
                 }
             }
@@ -1474,7 +1512,7 @@ pub fn oracle_c12(ctx: &Ctx, out: &mut Out, s: &Subject, rng: &mut Rng) {
                     out.evaluations_extra += 1;
                     if a != fresh[o] {
                         let classifier = match (&a, name) {
-                            (Ok(_), _) if plain_history_differs(choice, db, &hist, &fresh[o]) => history_classifier(name, s).to_string(),
+                            (x, _) if (x.is_ok() || is_budget_panic(x)) && plain_history_differs(choice, db, &hist, &fresh[o]) => history_classifier(name, s, &a, &fresh[o]).to_string(),
                             (Err(m), "slg") if m.contains("Negative subgoal had delayed_subgoals") => "slg_negative_subgoal_delayed_panic".to_string(),
                             (Err(_), "slg") => "slg_panic_after_panic".to_string(),
                             (_, "slg") => "slg_strand_lost_after_panic".to_string(),
